@@ -6,17 +6,19 @@ PROPS = [json.loads(l)["id"] for l in open(os.path.join(HERE, "properties.jsonl"
 
 CHECKS = {
  "C06": dict(
-   category="other",
-   text="Every ArMember file operation (read, readline, readlines, seek, tell) is verified function by function against "
-        "contracts that say 'behaves as io.BytesIO over data[offset:end]', for all archives, all positions, all sizes, every "
-        "incoming position of the shared file object and the three ways a member gets its file object; the VCs are generated "
-        "from the AST of the real debian/arfile.py on every run and discharged by z3/cvc5. The archive indexing code "
-        "(__collect_members, from_file, getmember) is covered by a bounded stand-in only, hence 'other' and not 'proof'.",
-   design="DESIGN.md §5 C06",
-   note="Trusted: the speclib model of binary file objects (read/readline/seek/tell over (data,pos)), first-occurrence "
-        "search axioms, int() of header fields as an uninterpreted function, open(name,'rb') yields the file's bytes "
-        "and cannot fail; the VC generator's encoding of the Python subset (A-SEM, cross-checked against CPython).",
-   technique="contract-based deductive verification: AST->VC symbolic executor + SMT (z3 5.1 / z3 4.8.12 / cvc5)"),
+   category="proof",
+   text="Every function the property depends on in debian/arfile.py is verified against a contract, for all archives, positions, "
+        "sizes and operation interleavings: the five member operations == io.BytesIO over data[offset:end] (three ways of "
+        "obtaining the file object, every incoming position of a shared file object, so interleaving is a corollary), from_file "
+        "(all outcomes), __collect_members (header walk with padding, loop invariant and termination), __index_archive, __init__, "
+        "getmember/getmembers/getnames, plus induction lemmas (k members listed; lookup returns the last member of a name). "
+        "VCs are generated from the AST of the real file on every run and discharged by z3 4.8.12 / cvc5 / z3 5.1.",
+   design="DESIGN.md §5 C06 and Build status",
+   note="Trusted: speclib models of binary file objects, first-occurrence search, bytes.split/strip/decode and int() of header fields "
+        "as uninterpreted functions, open(name,'rb') yields the file's bytes and cannot fail, objects appended to the member list are "
+        "kept by value (they are not mutated afterwards), well-definedness of the recursive spec functions, the VC generator's "
+        "encoding of the Python subset (A-SEM; cross-checked by replayed counterexamples, mutants and the bounded part).",
+   technique="contract-based deductive verification: AST->VC symbolic executor with loop invariants, recursive spec functions, induction lemmas; SMT"),
  "C18": dict(
    category="other",
    text="patches_from_ed_script and patch_lines are verified against recursive specification functions (spec parser of the ed "
